@@ -28,7 +28,8 @@ theorem origin_tdict : ptm.origin .tDict = some .dict := rfl
 theorem cbt_tunion : ptm.cbt .tUnion = some .anyOf := rfl
 
 theorem default_scalar (k : Scalar) : defaultDecl k.head = .ok k.decl := by cases k <;> rfl
-theorem default_coll (c : Coll) : defaultDecl c.head = .ok c.anyDecl := by cases c <;> rfl
+theorem default_coll (c : Coll) (h : (c != Coll.tuple) = true) : defaultDecl c.head = .ok c.anyDecl := by
+  cases c <;> first | rfl | simp at h
 theorem mkItems_coll (c : Coll) (d : FieldDecl) : mkItems c.head [d] = .ok (c.ofDecl d) := by cases c <;> rfl
 theorem coll_head_ne_anyOf (c : Coll) : (c.head == Head.anyOf) = false := by cases c <;> rfl
 
@@ -259,19 +260,23 @@ theorem ev_good : ∀ s : Sp, supported ptm s = true → ∃ o, ev ptm s = .ok o
     exact ⟨.finst d, rfl, good_finst _ _ rfl rfl⟩
   | noneLit => intro h; simp [supported] at h
   | bareBuiltin c =>
-    intro _
+    intro h
+    have hc := default_coll c (by simpa [supported] using h)
     exact ⟨.ty c.atom, rfl,
-      ⟨by simp [gtli, generic_coll, cbt_coll, default_coll, someDecl, denote], rfl, fun _ => rfl, rfl, fun h => by simp [kwAllowed] at h⟩⟩
+      ⟨by simp [gtli, generic_coll, cbt_coll, hc, someDecl, denote], rfl, fun _ => rfl, rfl, fun h => by simp [kwAllowed] at h⟩⟩
   | bareTyping c =>
-    intro _
+    intro h
+    have hc := default_coll c (by simpa [supported] using h)
     exact ⟨.ty c.tAtom, rfl,
-      ⟨by simp [gtli, generic_tcoll, origin_tcoll, ofOrigin, cbt_coll, default_coll, denote], rfl, fun _ => rfl, rfl, fun h => by simp [kwAllowed] at h⟩⟩
+      ⟨by simp [gtli, generic_tcoll, origin_tcoll, ofOrigin, cbt_coll, hc, denote], rfl, fun _ => rfl, rfl, fun h => by simp [kwAllowed] at h⟩⟩
   | bareCls c =>
-    intro _
-    exact ⟨.fcls c.head, rfl, ⟨by simp [gtli, default_coll, someDecl, denote], rfl, fun _ => rfl, rfl, fun h => by simp [kwAllowed] at h⟩⟩
+    intro h
+    have hc := default_coll c (by simpa [supported] using h)
+    exact ⟨.fcls c.head, rfl, ⟨by simp [gtli, hc, someDecl, denote], rfl, fun _ => rfl, rfl, fun h => by simp [kwAllowed] at h⟩⟩
   | bareInst c =>
-    intro _
-    exact ⟨.finst c.anyDecl, by simp [ev, default_coll], good_finst _ _ rfl rfl⟩
+    intro h
+    have hc := default_coll c (by simpa [supported] using h)
+    exact ⟨.finst c.anyDecl, by simp [ev, hc], good_finst _ _ rfl rfl⟩
   | pep585 c x ih =>
     intro h
     simp only [supported] at h
